@@ -60,7 +60,7 @@ NEGATIVE = [
 
 def cfg_for(rng, max_sites):
     return gen_prog.Cfg(nvars=rng.choice([2, 3, 3, 4]), max_sites=rng.choice([2, 3, 4, max_sites]),
-                        bias=rng.choice([None, None, None, None, "two-loops", "loops-in-branches"]),
+                        bias=rng.choice([None, None, None, None, "two-loops", "loops-in-branches", "for-accumulate", "for-accumulate", "chain-loop"]),
                         constants=False, sugar=False, skips=False,
                         max_depth=rng.choice([1, 2, 2, 3]), max_stmts=rng.choice([2, 3, 4, 5]))
 
